@@ -96,6 +96,17 @@ struct IterSlot {
     size_t pos = 0;
 };
 
+// many copies of one edge, held across steps and released in stages
+// (reference counts sitting exactly on the 8/16/32-bit counter boundaries
+// while other work resizes the handle arrays)
+struct Hoard {
+    int forest = -1;
+    int id = 0;
+    Table tab;
+    bool oracle = true;
+    std::vector<MEDDLY::dd_edge*> copies;
+};
+
 struct FileSlot {
     std::string bytes;          // contents of the simulated disk file
     int kind = 0;               // FKind of the writing forest
@@ -170,6 +181,7 @@ class World {
         std::vector<EdgeSlot*> edges;
         std::vector<IterSlot*> iters;
         std::vector<FileSlot*> files;
+        std::vector<Hoard*> hoards;
         bool lib_running = false;
         unsigned max_fid_seen = 0;
 
@@ -233,6 +245,9 @@ class World {
         void opRelease(const Step &s);
         void opDrain(const Step &s);
         void opMassCopy(const Step &s);
+        void opHoard(const Step &s);
+        void opUnhoard(const Step &s);
+        void dropHoards();
         void opDetachAttach(const Step &s);
         void opPurge(const Step &s);
         void opRebuild(const Step &s);
